@@ -56,6 +56,12 @@ def one(co, prog_id, nlines):
                 ok = False
                 problems.append("jump of %s at %d lands at %r: not an instruction boundary" % (name, i.offset, i.argval))
                 hasjump = False
+            elif target >= 2 and ins[target - 2].opname == "EXTENDED_ARG" and ins[target - 2].arg != 0:
+                # EXTENDED_ARG and the instruction it prefixes are one unit: entering it behind a non-zero prefix
+                # executes the instruction with a truncated argument
+                ok = False
+                problems.append("jump of %s at %d lands at %r behind the EXTENDED_ARG prefix of %s" % (name, i.offset, i.argval, ins[target - 1].opname))
+                hasjump = False
         # operand index ranges
         a = i.arg
         if i.opcode in dis.hasconst and not (0 <= a < len(co.co_consts)):
